@@ -28,7 +28,7 @@ def run(ctx):
     ctx.extra['boundaries_per_variant'] = {r['extra']['name']: r['extra']['n'] for r in res if r.get('extra')}
     # the same experiment at real-syscall granularity (strace attach + kill on syscall entry): SQLite's own writes, CPython's flushes
     sys_names = None if not ctx.quick else ['pack_all_loose:yes:clpp=1@', 'add_objects_to_pack:z=1:nh1@', 'repack:keep@']
-    ctx.map(crashchecks.run_sys_variant, crashchecks.sys_cases(ctx, PROPERTY, 'syskill', names=sys_names, limit=ctx.pick(6, 40)))
+    ctx.map(crashchecks.run_sys_variant, crashchecks.sys_cases(ctx, PROPERTY, 'syskill', names=sys_names, limit=ctx.pick(6, 25)))
     ctx.extra['exhaustive_scope'] = 'every Python-level boundary of each listed variant/pre-state pair (not exhaustive over variants or contents)'
 
 
